@@ -9,7 +9,8 @@ def parseRej (f : List String) : HsErr :=
   match f with
   | [code, reason, hdr] =>
     let c := natOr code
-    { name := if c == 0 then "plain" else "cb", code := c, reason := hexOr reason, header := if hdr == "-" then [] else hexOr hdr }
+    -- "r0": a ConnectionRejectedError built without RejectionStatus (code 0, answered with 500 like a plain error)
+    { name := if code == "r0" then "cb" else if c == 0 then "plain" else "cb", code := c, reason := hexOr reason, header := if hdr == "-" then [] else hexOr hdr }
   | _ => ⟨"plain", 0, [], []⟩
 
 def parseUpCfg (s : String) : UpCfg :=
@@ -209,7 +210,12 @@ def judgeUpgrade (cfg : UpCfg) (reqBytes : Bytes) (err protoObs written : String
         else
           let code := natOr (bytesToString ((wr.drop 9).take 3))
           let cl := (respHeader wr "Content-Length").map (fun b => natOr (bytesToString b))
+          -- the statuses the configured callbacks may choose (none chosen: 500)
+          let chosen := ([cfg.onRequest, cfg.onHost, cfg.onHeader, (match cfg.onBeforeUpgrade with | some (.inr e) => some e | _ => none)].filterMap id).map
+            fun (e : HsErr) => if e.code == 0 then 500 else e.code
           if wr.take 9 != strBytes "HTTP/1.1 " then "bad:error-response-status-line"
+          else if !(allDigits ((wr.drop 9).take 3) && wr.getD 12 0 == 32) || code < 400 || code > 599 then "bad:error-response-status-not-an-HTTP-error-code"
+          else if (err == "hs:cb" || err == "hs:plain") && !chosen.contains code then "bad:rejection-status-not-the-callbacks"
           else if cl != some (respBody wr).length then "bad:error-response-content-length"
           else if code == 426 && respHeader wr "Sec-WebSocket-Version" != some (strBytes "13") then "bad:426-without-version-header"
           else if cfg.header != [] && zeroCopy && !contains wr cfg.header then "bad:extra-headers-missing"
